@@ -13,6 +13,7 @@ import liesel.goose as gs
 from vlib.core import fstr
 
 from .graph_driver import Term
+from .graph_driver import POISON
 from .logprob_driver import ProgramRun, gen_program, model_family
 
 
@@ -91,6 +92,19 @@ def symbolic_trace(rng, ncalls=10):
                 pos_log.append([k, str(x)])
             before = {k: v for k, v in st.items()}
             user_before = user.state
+            if keys and rng.random() < 0.15:
+                # an earlier call that fails half-way (a node function refuses the value): the next call must not
+                # be affected by what it left behind in the interface
+                bad = dict(pos)
+                bad[next(iter(bad))] = Term(POISON)
+                raised = False
+                try:
+                    iface.update_state(bad, st)
+                except Exception:  # noqa: BLE001
+                    raised = True
+                ev.append({"ev": "failed_call", "st": si + 1, "raised": raised,
+                           "arg_unchanged": _deep_equal_state(before, st),
+                           "user_unchanged": _deep_equal_state(user_before, user.state)})
             ret = iface.update_state(pos, st)
             fresh = gs.LieselInterface(user).update_state(pos, st)
             # direct assignment on a copy of the user's model holding the state
